@@ -7,7 +7,8 @@ for d in seeded/*/; do
   n=$(basename $d)
   [[ -n "${1:-}" && "$n" != *"$1"* ]] && continue
   ids=$(python3 -c "import json;print(' '.join(json.load(open('$d/meta.json'))['detected_by'].keys()))")
-  res=$(tools/seedcheck.sh $d/patch.diff $ids 2>&1 | grep "^==" | awk '{print $2"="$3}' | tr '\n' ' ')
+  res=$(tools/seedcheck.sh /verif/${d}patch.diff $ids 2>&1 | grep "^==" | awk '{print $2"="$3}' | tr '\n' ' ')
+  if [ -z "$res" ]; then echo "ERROR   $n :: seedcheck produced no result (patch does not apply?)"; bad=$((bad+1)); continue; fi
   if echo "$res" | grep -q "exit=0\|exit=2" ; then echo "MISSED  $n :: $res"; bad=$((bad+1)); else echo "caught  $n :: $res"; ok=$((ok+1)); fi
 done
 echo "caught=$ok missed=$bad"
